@@ -4,7 +4,8 @@
    ordering, exception class and warning by the correspondence check of this property. *)
 From Coq Require Import String ZArith List Bool.
 From XV Require Import Base.Label Base.LSet Base.ODict Base.Attr Base.Outcome Model.Hypergraph
-  Proofs.HgViews Proofs.HgInv Proofs.HgInvOps Proofs.HgStep Proofs.HgErrors Proofs.HgSpec Proofs.ShuffleProofs Proofs.DerivedProofs Proofs.HgSpecMore Model.DiHypergraph Proofs.DiSpec Model.SimplicialComplex Proofs.ScInv Proofs.ScExact Proofs.SetterProofs Proofs.ScClose Proofs.DiSpec2.
+  Proofs.HgViews Proofs.HgInv Proofs.HgInvOps Proofs.HgStep Proofs.HgErrors Proofs.HgSpec Proofs.ShuffleProofs Proofs.DerivedProofs Proofs.HgSpecMore Model.DiHypergraph Proofs.DiSpec Model.SimplicialComplex Proofs.ScInv Proofs.ScExact Proofs.SetterProofs Proofs.ScClose Proofs.DiSpec2
+  Proofs.DiInv Model.PyIR Model.PyIRD Gen.Mutators Gen.DiMutators Proofs.BulkSource Proofs.DiMutatorSource.
 Import ListNotations.
 Open Scope Z_scope.
 
@@ -255,3 +256,44 @@ Example C05_nonvacuous :
   getl (LInt 0) (h_edge (st_of (double_edge_swap (LInt 1) (LInt 3) (LInt 0) (LInt 1) s))) = [LInt 2; LInt 3].
 Proof. vm_compute. repeat split. Qed.
 Print Assumptions C05_nonvacuous.
+
+(* THE SOURCE TIE for the bulk calls.  Three more pieces of xgi/core/hypergraph.py are regenerated on every run:
+   - the item of the dict format of add_edges_from (`for idx, members in ebunch_to_add.items(): ...`) as a guarded body - a
+     `warn(...); continue` guard ends the item with one warning, a raise ends the loop;
+   - the `while True:` loop of formats 1-4: the dispatch `members, idx, eattr = ...` is read into the table src_bulk_formats (is the id
+     the item's own or the next of the counter - drawn before anything else -, does the item carry its own attribute dict), the item
+     `if idx in self._edge.keys(): warn(...) else: <statements>` as a guarded body, `format2 or format4` as the flag "the id is the
+     caller's", the two attribute updates in their order (the call's **attr first, the item's dict second);
+   - the guard of remove_nodes_from, whose item then calls the translated remove_node.
+   Run item by item they are the model's add_edges_from in all five formats (for every **attr with distinct keys - it is a Python dict)
+   and remove_nodes_from.  What stays outside: the detection of the format from the first element, the iterator protocol, and the
+   decoding `members = list(members); member_set = set(members)` (the interpreter is handed both) *)
+Theorem C05_bulk_calls_are_source :
+  (forall a l s, has LNone (h_edge s) = false ->
+     run_items src_add_edges_from_dict_guards src_add_edges_from_dict l s = add_edges_from (EB5 l) a s) /\
+  (forall a s, NoDup (map fst a) ->
+     (forall l, run_bulk src_bulk_formats 0 src_bulk_item_guards src_bulk_item a (map (fun m => (m, LNone, [])) l) s = add_edges_from (EB1 l) a s) /\
+     (forall l, run_bulk src_bulk_formats 1 src_bulk_item_guards src_bulk_item a (map (fun mi => (fst mi, snd mi, [])) l) s = add_edges_from (EB2 l) a s) /\
+     (forall l, run_bulk src_bulk_formats 2 src_bulk_item_guards src_bulk_item a (map (fun me => (fst me, LNone, snd me)) l) s = add_edges_from (EB3 l) a s) /\
+     (forall l, run_bulk src_bulk_formats 3 src_bulk_item_guards src_bulk_item a l s = add_edges_from (EB4 l) a s)) /\
+  (forall strong re ns s, Inv s ->
+     run_node_items src_remove_nodes_from_guards src_remove_node ns [strong; re] s = remove_nodes_from ns strong re s).
+Proof.
+  split; [exact add_edges_from_dict_is_source|]. split; [exact add_edges_from_items_is_source|exact remove_nodes_from_is_source].
+Qed.
+Print Assumptions C05_bulk_calls_are_source.
+
+(* THE SOURCE TIE for the bulk call.  Both loops of DiHypergraph.add_edges_from are regenerated on every run: the item of the dict
+   format, and the `while True:` loop of formats 1-4 (dispatch table, guarded item, `format2 or format4` as the flag, the two
+   attribute updates in their order).  Run item by item they are the model's d_add_edges_from in all five formats, on every state
+   with the class invariant and for every **attr with distinct keys.  Outside: the detection of the format, the iterator protocol,
+   the decoding of `members` into the two lists *)
+Theorem C05_directed_bulk_call_is_source :
+  (forall a l d, DInv d -> run_ditems dsrc_dict_item_guards dsrc_dict_item l d = d_add_edges_from (DB5 l) a d) /\
+  (forall a d, NoDup (map fst a) -> DInv d ->
+     (forall l, run_dbulk dsrc_bulk_formats 0 dsrc_bulk_item_guards dsrc_bulk_item a (map (fun m => (fst m, snd m, LNone, [])) l) d = d_add_edges_from (DB1 l) a d) /\
+     (forall l, run_dbulk dsrc_bulk_formats 1 dsrc_bulk_item_guards dsrc_bulk_item a (map (fun m => (fst (fst m), snd (fst m), snd m, [])) l) d = d_add_edges_from (DB2 l) a d) /\
+     (forall l, run_dbulk dsrc_bulk_formats 2 dsrc_bulk_item_guards dsrc_bulk_item a (map (fun m => (fst (fst m), snd (fst m), LNone, snd m)) l) d = d_add_edges_from (DB3 l) a d) /\
+     (forall l, run_dbulk dsrc_bulk_formats 3 dsrc_bulk_item_guards dsrc_bulk_item a l d = d_add_edges_from (DB4 l) a d)).
+Proof. split; [exact d_add_edges_from_dict_is_source|exact d_add_edges_from_items_is_source]. Qed.
+Print Assumptions C05_directed_bulk_call_is_source.
